@@ -103,8 +103,11 @@ class Flow:
         if isinstance(s, ast.If):
             c.observe(s.test, S, s)
             ex = [("exc", S, s)] if self.may_raise(s.test) else []
-            S1, e1 = self.block(s.body, c.assume(s.test, True, S))
-            S2, e2 = self.block(s.orelse, c.assume(s.test, False, S))
+            t_, pos = s.test, True
+            while isinstance(t_, ast.UnaryOp) and isinstance(t_.op, ast.Not):
+                t_, pos = t_.operand, not pos            # `if not c:` refines like `if c:` with the branches exchanged
+            S1, e1 = self.block(s.body, c.assume(t_, pos, S))
+            S2, e2 = self.block(s.orelse, c.assume(t_, not pos, S))
             return join(S1, S2), ex + e1 + e2
         if isinstance(s, (ast.For, ast.While)):
             head = s.iter if isinstance(s, ast.For) else s.test
